@@ -36,6 +36,29 @@ def force_python_fallbacks() -> None:
     s._USE_CYTHON = False
 
 
+class GAttrs(dict):
+    """project.attributes with two views of the slot length: `attributes["scheduleGranularity"]` (how Project.dateToIdx / idxToDate /
+    scoreboardSize read it - index arithmetic, decided separately by C17) stays CONCRETE, while
+    `attributes.get("scheduleGranularity", ...)` (how TaskScenario / ResourceScenario read it for the sub-slot arithmetic) returns the
+    symbolic integer pinned by the precondition G == resolution, so that quotients such as eff/3600 are exact symbolic terms.
+    With a symbolic divisor in dateToIdx CrossHair realises the numerator (measured: one path per concrete second of a dependency bound)."""
+
+    def __init__(self, base: dict, g_sym: Any):
+        super().__init__(base)
+        self._g_sym = g_sym
+
+    def get(self, key: Any, default: Any = None) -> Any:
+        if key == "scheduleGranularity" and self._g_sym is not None:
+            return self._g_sym
+        return super().get(key, default)
+
+
+def set_symbolic_granularity(project: Any, g_sym: Any, concrete: int) -> None:
+    base = dict(project.attributes)
+    base["scheduleGranularity"] = concrete
+    project.attributes = GAttrs(base, g_sym)
+
+
 class Warnings:
     def __init__(self) -> None:
         self.ids: list[str] = []
